@@ -318,6 +318,9 @@ class RandomQueries:
             q['pivot'] = [({'k': 'idx', 'i': pos[n]} if r.random() < 0.5 else {'k': 'expr', 'e': self.col(n)}) for n in (first, second)]
             q['where'] = {'k': 'and', 'args': [{'k': 'un', 'op': 'isnotnull', 'a': self.col('k')}, {'k': 'un', 'op': 'isnotnull', 'a': self.col('s')}]} \
                 if r.random() < 0.8 else q['where']
+            if r.random() < 0.4:
+                q['order'] = [{'r': r.choice([{'k': 'idx', 'i': pos[first]}, {'k': 'expr', 'e': self.col(first)}, {'k': 'idx', 'i': pos[second]},
+                                              {'k': 'idx', 'i': pos['a0']}]), 'desc': r.random() < 0.6} for _ in range(r.randint(1, 2))]
             return q
         if family == 'nested':
             q = self.nested(r.choice([1, 1, 2])) if r.random() < 0.6 else self.query('plain')
@@ -352,6 +355,11 @@ class RandomQueries:
         r = self.rng
         inner = self.query(r.choice(['plain', 'order', 'group', 'order'])) if depth <= 1 or r.random() < 0.6 else self.nested(depth - 1)
         inner['pivot'] = []
+        if not inner.get('star') and r.random() < 0.15:
+            cands = [t for t in inner['targets'] if t['as'] and t['as'] != 'gg']
+            refd = json.dumps([inner['group'], inner['order']])
+            if cands and all(('"' + t['as'] + '"') not in refd for t in cands):
+                r.choice(cands)['as'] = 'meta'          # an output that happens to be called like a special column
         names = ['p' if (t['as'] == '' and t['e'].get('n') == 'p') else t['as'] for t in inner['targets']] if not inner.get('star') else None
         if names is None or any(not n for n in names):
             names = inner.get('_names') or ['p']
@@ -371,7 +379,8 @@ class RandomQueries:
             q['targets'] = [{'e': col(g), 'as': 'gg'}, {'e': {'k': 'agg', 'f': 'count', 'a': {'k': 'star'}}, 'as': 'nn'}]
             q['group'] = [{'k': 'idx', 'i': 1}] if r.random() < 0.5 else []
             q['_names'] = ['gg', 'nn']
-        if r.random() < 0.5 and not q['group'] and not any(t['e'].get('k') == 'agg' for t in q['targets']):
+        if r.random() < (0.8 if inner['order'] and inner['limit'] < 0 else 0.5) and not q['group'] \
+                and not any(t['e'].get('k') == 'agg' for t in q['targets']):
             keys = r.sample(names, min(len(names), r.randint(1, 2)))
             q['order'] = [{'r': {'k': 'expr', 'e': col(n)}, 'desc': r.random() < 0.5} for n in keys]
         if r.random() < 0.3:
